@@ -30,6 +30,8 @@ pub struct C08 {
     /// Paths that stay faulty to the end of the plan, or have random loss.
     unreliable_paths: Vec<usize>,
     coop_at_end: bool,
+    /// Some path still loses its REG2 replies (and nothing else) when the plan ends.
+    reg2_loss_left_on: bool,
     last_tick: u64,
     path_of_ip: HashMap<std::net::IpAddr, usize>,
 }
@@ -46,6 +48,7 @@ impl Monitor for C08 {
         let mut bh: HashMap<usize, bool> = HashMap::new();
         let mut ll: HashMap<usize, bool> = HashMap::new();
         let mut bf: HashMap<usize, bool> = HashMap::new();
+        let mut dr: HashMap<usize, bool> = HashMap::new();
         let mut mode = plan.recv.mode.clone();
         for a in &plan.actions {
             let end = match &a.kind {
@@ -56,6 +59,11 @@ impl Monitor for C08 {
                     if *down {
                         bh.insert(*link * 2 + 1, *on);
                     }
+                    a.t
+                }
+                Action::DropReg2 { link, on } => {
+                    // lost handshake replies: a fault of the down direction
+                    dr.insert(*link, *on);
                     a.t
                 }
                 Action::LinkLoss { link, on } => {
@@ -88,12 +96,14 @@ impl Monitor for C08 {
         }
         self.quiet_after = plan.time_base_ms + quiet;
         self.coop_at_end = mode == "coop";
+        self.reg2_loss_left_on = dr.values().any(|on| *on);
         for i in 0..11 {
             let lossy = plan.links.get(i).is_some_and(|l| l.loss_up > 0.0 || l.loss_down > 0.0 || l.dup > 0.0);
             if lossy
                 || bh.get(&(i * 2)).copied().unwrap_or(false)
                 || bh.get(&(i * 2 + 1)).copied().unwrap_or(false)
                 || bf.get(&i).copied().unwrap_or(false)
+                || dr.get(&i).copied().unwrap_or(false)
             {
                 self.unreliable_paths.push(i);
             }
@@ -184,7 +194,9 @@ impl Monitor for C08 {
                 }
             }
             // ---- retry spacing ----
-            if pre.last_attempt_ms != post.last_attempt_ms && post.last_attempt_ms == ctx.now {
+            // an attempt is what the wire side sees - the socket was re-opened - or, when the
+            // re-open failed, the implementation's own stamp moving to now
+            if pre.fd != post.fd || (pre.last_attempt_ms != post.last_attempt_ms && post.last_attempt_ms == ctx.now) {
                 out.probe("c08.attempt");
                 if let Some(prev) = h.last_attempt {
                     let gap = ctx.now - prev;
@@ -258,7 +270,15 @@ impl Monitor for C08 {
                 if ctx.now - since > 30_000 + tick_gap {
                     out.violate(
                         &format!("{M}.liveness"),
-                        if v.last_received.is_some() { "registering_link_kept_alive" } else { "silent_link" },
+                        // an uplink that hears REG_NGP but never its REG2 keeps taking the one
+                        // outstanding-REG1 slot: such histories are labelled apart (known finding)
+                        if self.reg2_loss_left_on {
+                            "handshake_slot_held_by_uplinks_losing_reg2"
+                        } else if v.last_received.is_some() {
+                            "registering_link_kept_alive"
+                        } else {
+                            "silent_link"
+                        },
                         ctx.idx,
                         format!(
                             "link {:x} has been disconnected for {} ms although its path delivers and the receiver would accept it (last heard {:?} ms ago, last attempt {:?} ms ago, established before: {})",
